@@ -257,7 +257,7 @@ func cmdCheck(args []string) int {
 		}
 		tries := 40
 		if v.f.Kind == "race" {
-			tries = 3
+			tries = 8
 		}
 		if v.f.Kind == "lockset" {
 			tries = -1 // lock-discipline obligation: nothing a single-goroutine native run could show
